@@ -25,7 +25,7 @@ from harness.tlc import tla
 NV, ONE, Z = 13, 10, 7
 
 # LinShowFull=False transcribes the code as it is: LinProg.show() returns showlc() only
-FLAGS = dict(LinShowFull=False)
+FLAGS = dict(LinShowFull=True)
 
 GEN_INVARIANTS = ['GenTypeOK', 'LpTextDescribes', 'ShowDescribes', 'LpMutantsRejected', 'ShowMutantsRejected',
                   'Export']
@@ -76,8 +76,8 @@ CONFIGS = {
             ClsSet={'LinProg', 'SOCProg'}, ModeSet={'dual'}, DirSet={'min', 'max'}),
     ],
 }
-CAP = {'quick': 420, 'thorough': 6000}
-NCONTROL_BASES = {'quick': 40, 'thorough': 150}
+CAP = {'quick': 420, 'thorough': 16000}
+NCONTROL_BASES = {'quick': 40, 'thorough': 300}
 
 REQUIRED_CLASSES = [
     'coef-negative', 'coef-tiny', 'coef-huge', 'coef-fractional', 'zero-stored-explicitly', 'negative-zero-stored',
@@ -151,6 +151,55 @@ def _row_blocks(lp):
         elif e['k'] == 'Rhs' and s is not None:
             out.append((s, i))
             s = None
+    return out
+
+
+def canonical_lp(P):
+    """What a correct writer emits for P (python twin of RenderLp with q rows for every class)."""
+    nv = P['nv']
+    zero = (nv + 1) // 2
+    sg = lambda r: -1 if r < zero else 1          # noqa: E731
+    ab = lambda r: nv + 1 - r if r < zero else r  # noqa: E731
+    out = [_ev('Section', s='min')]
+    out += [_ev('ObjTerm', a=sg(r), b=ab(r), c=j + 1) for j, r in enumerate(P['obj']) if r != zero]
+    out.append(_ev('Section', s='st'))
+    out += [_ev('QRow', a=k + 1, c=c['h'], s='ok', l=c['mem']) for k, c in enumerate(P['cones'])]
+    for i in range(P['m']):
+        out.append(_ev('RowStart', a=i + 1, s='c'))
+        out += [_ev('Term', a=sg(P['A'][i][j - 1]), b=ab(P['A'][i][j - 1]), c=j) for j in P['ord'][i]]
+        out += [_ev('Rel', s=P['sense'][i]), _ev('Rhs', b=P['rhs'][i])]
+    out.append(_ev('Section', s='bounds'))
+    out += [_ev('Bound', a=P['lb'][j], b=P['ub'][j], c=j + 1) for j in range(P['n'])]
+    for name, kind, letter in (('general', 'General', 'I'), ('binary', 'Binary', 'B')):
+        cols = [j + 1 for j in range(P['n']) if P['vt'][j] == letter]
+        if cols:
+            out.append(_ev('Section', s=name))
+            out += [_ev(kind, c=j) for j in cols]
+    out.append(_ev('End'))
+    return out
+
+
+def canonical_show(P):
+    """The complete table for P (python twin of RenderShow with LinShowFull)."""
+    nv, n = P['nv'], P['n']
+    zero = (nv + 1) // 2
+
+    def row(kind, i, cells, sense, const):
+        return [_ev('SRow', a=i, s=kind)] + cells + [_ev('SSense', s=sense), const]
+
+    num = lambda f: [_ev('SCell', b=f[j], c=j + 1) for j in range(n)]   # noqa: E731
+    dash = _ev('SConst', s='-')
+    out = [_ev('SHead', a=n, s='ok')]
+    out += row('Obj', 0, num(P['obj']), '-', dash)
+    for i in range(P['m']):
+        out += row('LC', i + 1, num(P['A'][i]), '==' if P['sense'][i] == 'eq' else '<=', _ev('SConst', b=P['rhs'][i]))
+    for k, c in enumerate(P['cones']):
+        cells = [_ev('SCell', b=(nv + 1 - P['one']) if j + 1 == c['h'] else (P['one'] if j + 1 in c['mem'] else zero),
+                     c=j + 1) for j in range(n)]
+        out += row('QC', k + 1, cells, '<=', _ev('SConst', b=zero))
+    out += row('UB', 0, num(P['ub']), '-', dash) + row('LB', 0, num(P['lb']), '-', dash)
+    out += row('Type', 0, [_ev('SCell', c=j + 1, s=P['vt'][j]) for j in range(n)], '-', dash)
+    out.append(_ev('SEnd'))
     return out
 
 
@@ -353,16 +402,24 @@ def run(rep, tier, props):
             lines.append(json.dumps(dict(P=r['P'], lp=r['lp'], show=r['show'])))
         bases = [k for k, r in enumerate(results) if r['P'] is not None]
         rng.shuffle(bases)
-        # prefer bases that exhibit the features the controls need
-        bases.sort(key=lambda k: -(('cone' in results[k]['classes']) + ('vtype-I' in results[k]['classes'])
-                                   + ('vtype-B' in results[k]['classes']) + (results[k]['P']['m'] >= 3)
-                                   + ('lb-zero' in results[k]['classes'])))
+        # bases that exhibit each feature the controls need first (several per feature), then the rest
+        feats = ['cone', 'vtype-I', 'vtype-B', 'lb-zero', 'ub-pos', 'lb--inf', 'row-le', 'objective-general']
+        first = []
+        for ft in feats + ['m2']:
+            have = [k for k in bases if (results[k]['P']['m'] >= 2 if ft == 'm2' else ft in results[k]['classes'])]
+            first += [k for k in have if k not in first][:4]
+        bases = first + [k for k in bases if k not in first]
         for k in bases[:NCONTROL_BASES[tier]]:
+            # Controls are mutations of the CANONICAL streams of the real formula's P (what a correct writer
+            # emits), so that they exercise the acceptor whatever the code under test wrote.
             r = results[k]
-            for name, acc, why, stream in lp_controls(r['P'], r['lp']):
+            clp, cshow = canonical_lp(r['P']), canonical_show(r['P'])
+            traces.append(dict(kind='canon', job=k))
+            lines.append(json.dumps(dict(P=r['P'], lp=clp, show=cshow)))
+            for name, acc, why, stream in lp_controls(r['P'], clp):
                 traces.append(dict(kind='control', stream='lp', job=k, name=name, accept=acc, why=why))
                 lines.append(json.dumps(dict(P=r['P'], lp=stream, show=[])))
-            for name, acc, why, stream in show_controls(r['P'], r['show']):
+            for name, acc, why, stream in show_controls(r['P'], cshow):
                 traces.append(dict(kind='control', stream='show', job=k, name=name, accept=acc, why=why))
                 lines.append(json.dumps(dict(P=r['P'], lp=[], show=stream)))
         tpath = os.path.join(sc, 'traces.ndjson')
@@ -405,8 +462,7 @@ def run(rep, tier, props):
     validated = 0
     accepted = dict(lp=0, show=0)
     rejected = dict(lp=0, show=0)
-    ctl = dict(neg_total=0, neg_rejected=0, pos_total=0, pos_accepted=0, names={})
-    genuine_tid = {tr['job']: i + 1 for i, tr in enumerate(traces) if tr['kind'] == 'genuine'}
+    ctl = dict(neg_total=0, neg_rejected=0, pos_total=0, pos_accepted=0, canonical=0, names={})
     for tid0, tr in enumerate(traces):
         tid = tid0 + 1
         r = results[tr['job']]
@@ -440,13 +496,16 @@ def run(rep, tier, props):
                                 % ('.lp text' if kind == 'lp' else 'show() frame', v[1], evt, v[2])),
                           program=job['rec'], recsig=r['recsig'], cls=r['P']['cls'], P=r['P'], text=r['text'],
                           show_rows=r['show_rows'], table=r['table']))
+        elif tr['kind'] == 'canon':
+            for kind in ('lp', 'show'):
+                v = verdict.get((tid, kind))
+                if v is None or v[0] != 'ACCEPT':
+                    raise tlc.MachineryError('acceptor rejects the canonical %s stream of %s: %s' % (kind, r['recsig'], v))
+            ctl['canonical'] += 1
         else:
             v = verdict.get((tid, tr['stream']))
             if v is None:
                 raise tlc.MachineryError('no verdict for control %d' % tid)
-            base_ok = verdict.get((genuine_tid[tr['job']], tr['stream']), ('REJECT',))[0] == 'ACCEPT'
-            if not base_ok:
-                continue     # a control is meaningful only relative to an accepted genuine stream
             st = ctl['names'].setdefault(tr['name'], [0, 0])
             st[0] += 1
             if tr['accept']:
@@ -495,7 +554,7 @@ def run(rep, tier, props):
     rep.extra['lpformat'] = dict(
         streams_validated=validated, accepted=accepted, rejected=rejected, transcription_drift=ndrift,
         programs_built=nbuilt, classes=classes, optimum_comparisons=agree,
-        binding_controls=dict(corrupted_total=ctl['neg_total'], corrupted_rejected=ctl['neg_rejected'],
+        binding_controls=dict(canonical_streams_accepted=2 * ctl['canonical'], corrupted_total=ctl['neg_total'], corrupted_rejected=ctl['neg_rejected'],
                               equivalent_total=ctl['pos_total'], equivalent_accepted=ctl['pos_accepted'],
                               by_kind={k: v[0] for k, v in sorted(ctl['names'].items())}),
         flags=FLAGS, replay_notes_by_kind=notekinds)
